@@ -487,22 +487,24 @@ private theorem notSpent_nil (X : Outpoint) : notSpent [] X = true := by
 
 /-- **world_covers_every_revoked_output** — the chain theorems above are about the RIGHT set of outputs: for every channel
     history (as in `revoked_fully_claimed`), every revoked commitment `j` of it and every list `held` of second-stage
-    transactions the cheater holds, the world `World.ofMonitor` (what the monitor model of Model/Punish.lean claims) makes
-    every to_local / HTLC output of the revoked commitment claimable, every output of every held second-stage transaction
-    claimable, and nothing else on the commitment (not the victim's to_remote, not an anchor). -/
+    transactions the cheater holds — each given input by input, `some v` for an input spending commitment output `v`, `none`
+    for any other input (fee inputs before, between or after the HTLC inputs; several HTLC inputs) — the world
+    `World.ofMonitor` (what the monitor model of Model/Punish.lean claims) makes every to_local / HTLC output of the revoked
+    commitment claimable, makes output `p` of held transaction `k` claimable for EVERY input position `p` that spends the
+    commitment, and nothing else on the commitment (not the victim's to_remote, not an anchor). -/
 theorem world_covers_every_revoked_output (P : Secrets.Params S) (seed : S) (specs : List Spec) (pending : Option Spec)
     (hlen : specs.length + (if pending.isSome then 1 else 0) ≤ 2 ^ P.B) (j : Nat) (hj : j + 1 < specs.length)
-    (sp : Spec) (hsp : specs[j]? = some sp) (held : List (List Nat)) (csv : Nat) :
+    (sp : Spec) (hsp : specs[j]? = some sp) (held : List (List (Option Nat))) (csv : Nat) :
     let m := monitorAfter P seed (specs.map Spec.body) (pending.map Spec.body)
     let n := numberOf P j
     let b := sp.body
     let W := World.ofMonitor P m n (b.tx (secretOf P seed n)) held csv
     (∀ i sat k, b.outputs[i]? = some (sat, k) → k = .toLocal ∨ k = .htlc → (W.kindOf (.commit i)).isSome) ∧
-    (∀ k t p, held[k]? = some t → p < t.length → (W.kindOf (.second k p)).isSome) ∧
+    (∀ k t p v, held[k]? = some t → t[p]? = some (some v) → (W.kindOf (.second k p)).isSome) ∧
     (∀ i, (W.kindOf (.commit i)).isSome → ∃ sat k, b.outputs[i]? = some (sat, k) ∧ (k = .toLocal ∨ k = .htlc)) ∧
-    W.seconds = held := by
+    W.inputs = held := by
   intro m n b W
-  have hall : W.allOutpoints = onConfirmRevoked P m n (b.tx (secretOf P seed n)) ++ allSecondClaims 0 held :=
+  have hall : W.allOutpoints = onConfirmRevoked P m n (b.tx (secretOf P seed n)) ++ allSecondClaimsAt 0 held :=
     ofMonitor_allOutpoints P m n _ held csv
   obtain ⟨hdirect, hcov, _, honly⟩ := revoked_fully_claimed P seed specs pending hlen j hj sp hsp []
   obtain ⟨hsec, _⟩ := revoked_secret_available_in_monitor P seed (specs.map Spec.body) (pending.map Spec.body)
@@ -519,23 +521,41 @@ theorem world_covers_every_revoked_output (P : Secrets.Params S) (seed : S) (spe
     rcases hcov i sat k hget hk with hm | ⟨t, ht, _⟩
     · rw [← hpun]; exact hm
     · cases ht
-  · intro k t p hget hp
+  · intro k t p v hget hp
     apply mem_kindOf_isSome
     rw [hall, List.mem_append]
     right
-    exact (mem_allSecondClaims 0 held _).2 ⟨k, p, t, by simp, hget, hp⟩
+    exact (mem_allSecondClaimsAt 0 held _).2 ⟨k, p, t, v, by simp, hget, hp⟩
   · intro i hk
     have hm := kindOf_isSome_mem hk
     rw [hall, List.mem_append] at hm
     rcases hm with hm | hm
     · exact honly i (by rw [hpun]; exact hm)
-    · exact absurd hm (commit_not_mem_allSecondClaims 0 held i)
+    · exact absurd hm (commit_not_mem_allSecondClaimsAt 0 held i)
+
+/-- **second_stage_tx_always_matched** — about `filter_block`, whose `matches` expression is TRANSLATED from the Rust source
+    on every run (Generated/Justice.lean `filterMatches`): (1) a transaction of a block is handed to the monitor's spend checks
+    iff it spends a watched output or ANY of its inputs — at ANY position, whatever the other inputs are — spends a transaction
+    matched earlier in the same block; (2) therefore, in EVERY reachable state and for EVERY block the model accepts (the
+    revoked commitment, second-stage transactions with fee inputs before / between / after their HTLC inputs or several HTLC
+    inputs, the victim's transactions, in the same block as their parents or in later blocks, in any order the chain allows),
+    filtering the block against the outputs watched BEFORE it and processing only the matched transactions is the same as
+    processing every transaction: no second-stage transaction spending the revoked commitment is ever dropped, so
+    `justice_claim_pending` holds for its outputs. -/
+theorem second_stage_tx_always_matched :
+    (∀ (α : Type) [DecidableEq α] (sw : Bool) (ins matched : List α),
+        filterMatches sw ins matched = true ↔ (sw = true ∨ ∃ i, i ∈ ins ∧ i ∈ matched)) ∧
+    (∀ (W : World) (h0 : Nat) (ops : List Op) (st : St), run W (St.init h0) ops = some st →
+        ∀ txs, connect W st txs = connectAll W st txs) := by
+  refine ⟨fun α _ sw ins matched => filterMatches_iff sw ins matched, ?_⟩
+  intro W h0 ops st hrun txs
+  exact connect_eq_all (inv_run ops (inv_init W h0) hrun) txs
 
 /-! ### Non-vacuity of the chain part (sanity runs of the executable model, not the claim) -/
 
 -- to_local = output 1, an offered HTLC = output 0 (its second-stage transaction S0 spends it), CSV 144
 def W0 : World :=
-  { outs := [(.commit 1, .toLocal), (.commit 0, .htlc true 500), (.second 0 0, .secondStage)], seconds := [[0]], csv := 144 }
+  { outs := [(.commit 1, .toLocal), (.commit 0, .htlc true 500), (.second 0 0, .secondStage)], inputs := [[some 0]], csv := 144 }
 def created (r : Option St) (X : Outpoint) : Option Nat := r.bind fun st => (st.claim X).map (·.created)
 def awaiting (r : Option St) (X : Outpoint) : Option (Option Nat) := r.bind fun st => (st.claim X).map (·.spentAt)
 -- the commitment confirms at 101, S0 at 102, one more block
@@ -556,6 +576,14 @@ example : (run W0 (St.init 100) [.connect [.second 0]]).isNone ∧
     (run W0 (St.init 100) ([.connect [.commit], .connect [.justice [.commit 0, .commit 1]]] ++ List.replicate 5 (.connect []) ++ [.disconnect 101])).isNone := by decide
 -- re-issue: the broadcast list of a block names the new claims; 15 blocks later the to_local claim is re-issued
 example : (step W0 (St.init 100) (.connect [.commit])).map (·.2) = some [.commit 1, .commit 0] := by decide
+-- an anchor-style second-stage transaction: fee input FIRST, then the HTLC input (claimed output = index 1), in the SAME block as
+-- the commitment, after it: matched through the parent/child rule of the filter, its output is claimed
+def W1 : World :=
+  { outs := [(.commit 1, .toLocal), (.commit 0, .htlc false 500), (.second 0 1, .secondStage)], inputs := [[none, some 0]], csv := 144 }
+example : created (run W1 (St.init 100) [.connect [.commit, .second 0]]) (.second 0 1) = some 101 ∧
+    awaiting (run W1 (St.init 100) [.connect [.commit, .second 0]]) (.commit 0) = some (some 101) := by decide
+-- a "first input only" filter would have dropped it: the first input is not the commitment's
+example : (inputRefs W1 (.second 0)).head? = some .other ∧ spendsWatched W1 (St.init 100).seen (.second 0) = false := by decide
 end Reorg
 
 end Ldk.C06
